@@ -112,8 +112,8 @@ def run(tier):
                         set_before_setup=[("GENROU", "coi", pat)]))
     # one index column holding numbers and a string (a third centre of inertia named by a string): the borrowed speed / angle slots
     # must still follow each generator's coi field
-    scs.append(dict(sid="stock[kundur/kundur_coi.xlsx|a COI named by a string next to numbered ones]", case="kundur/kundur_coi.xlsx", collate=[],
-                    add_before_setup=[("COI", dict(idx="COI_B"))], set_before_setup=[("GENROU", "coi", [1, 2, "COI_B", "COI_B"])], tds_init=True))
+    scs.append(dict(sid="stock[kundur/kundur_coi.xlsx|COI-named-by-a-string-next-to-numbered-ones]", case="kundur/kundur_coi.xlsx", collate=[],
+                    add_before_setup=[("COI", dict(idx="COI_B"))], set_before_setup=[("GENROU", "coi", [1, 2, "COI_B", "COI_B"])], must_work=True))
     # devices that borrow an index-valued parameter from the device they name (a ZIP / frequency-dependent load takes the bus of
     # its PQ, an area-control device the area of its bus), added in an order that is not the order of the parent table
     scs.append(dict(sid="stock[ieee14/ieee14_full.xlsx|loads and area control added out of order]", case="ieee14/ieee14_full.xlsx", collate=[],
@@ -134,7 +134,11 @@ def run(tier):
             rep.note("scenario %s ended with %s" % (sc["sid"], x["status"]))
             continue
         if x["status"] == "exc":
-            if "case" in sc:
+            if sc.get("must_work"):
+                # a legal variant of a case that sets up and initialises as shipped: an exception from the library is the observation
+                rep.violation("LegalIndexKindsSetUpAndInitialise:%s" % sc["sid"], "set-up / initialisation raised for a legal case: %s" % (
+                    x.get("error", "").strip().splitlines()[-1][:200]), replay=dict(scenario={k: v for k, v in sc.items() if k != "tid"}))
+            elif "case" in sc:
                 rep.note("stock case %s could not be observed: %s" % (sc["case"], x.get("error", "").strip().splitlines()[-1][:160]))
             else:
                 rep.machinery("driver exception in %s" % sc["sid"], x.get("error", "")[-1500:])
